@@ -88,11 +88,11 @@ PROPS = {
               "mixes it over the input; re-keying an Option into a namespace carries every field and exactly one prefix; Template.evaluate "
               "always goes through resolve(); no evaluated domain or other options-dependent result is memoised on the Option."
               " Options are handed on unchanged by every class but WithOptions (no second resolve of the dictionary); a shallow copy of an options dictionary is never written into below its first level; the default type-validation handler accepts every value."
-              " An Option declared as a member of a dataset class is resolved by the instance initialiser for every non-dunder name (a skipped member stays an Option object instead of the value under its key)." " An implementation registered under a hashable key (a tuple of option values) is found under that key: an Option whose default or domain is such a dataset yields what the dataset is defined to yield." " An argument that merely looks like another (same key, different domain) is evaluated on its own: its domain is enforced." " lift() keeps no keyword of its own beside **kwargs (a parameter called like it could no longer be overridden through where()/defaults=, and an Option whose default is such a dataset would ignore the override)." " Nothing is attached to an expression class from outside its body (Namespace members are reached through __getattr__, which normal look-up pre-empts).",
+              " An Option declared as a member of a dataset class is resolved by the instance initialiser for every non-dunder name (a skipped member stays an Option object instead of the value under its key)." " An implementation registered under a hashable key (a tuple of option values) is found under that key: an Option whose default or domain is such a dataset yields what the dataset is defined to yield." " An argument that merely looks like another (same key, different domain) is evaluated on its own: its domain is enforced." " lift() keeps no keyword of its own beside **kwargs (a parameter called like it could no longer be overridden through where()/defaults=, and an Option whose default is such a dataset would ignore the override)." " Nothing is attached to an expression class from outside its body (Namespace members are reached through __getattr__, which normal look-up pre-empts)." " (Round 9) An Option's default may be an overloaded dataset: what the default evaluates to is the implementation registered last under the alias, so the order in which register() merges the new entry into the table (R-CW) is judged here too. A lifted definition that takes **kwargs keeps the extra evaluatable arguments given to lift/where: the question whether it takes them is any() over the parameters, and a function is applied through lift, not bare (R-KW).",
               "the values returned for particular dictionaries; list-index and prefix-key semantics inside confectioner",
-              filters={"R-GA": ["attaches"], "R-KW": [".lift"], "R-LM": ["labrea.application", "labrea.arguments", "labrea.option"], "R-CW": ["a hashable key is registered whole"], "R-MF": ["_DatasetClassMixin.__init__", "members are the Evaluatable"], "R-OF": ["labrea.computation", "labrea.option", "labrea.template", "labrea.dataset", "labrea.logging", "labrea.cache"], "R-HD": ["type-validation"], "R-CC": ["Option(", "Namespace(", "_Auto("], "R-PU": ["labrea.option", "labrea.template"], "R-KC": ["labrea.option.Option:"],
+              filters={"R-GA": ["attaches"], "R-KW": [".lift", "a variadic parameter", "built directly"], "R-LM": ["labrea.application", "labrea.arguments", "labrea.option"], "R-CW": ["a hashable key is registered whole", "assigns a fresh table"], "R-MF": ["_DatasetClassMixin.__init__", "members are the Evaluatable"], "R-OF": ["labrea.computation", "labrea.option", "labrea.template", "labrea.dataset", "labrea.logging", "labrea.cache"], "R-HD": ["type-validation"], "R-CC": ["Option(", "Namespace(", "_Auto("], "R-PU": ["labrea.option", "labrea.template"], "R-KC": ["labrea.option.Option:"],
                        "R-IS": ["labrea.option.", "labrea.template."], "R-TK": ["Template.evaluate"]}),
-    "C05": _p(["R-SO", "R-OP", "R-SL", "R-EO", "R-MX", "R-CD", "R-DC", "R-RG", "R-FP", "R-VM", "R-KW", "R-ON", "R-LK", "R-HO", "R-VP", "R-LM", "R-EH"],
+    "C05": _p(["R-SO", "R-OP", "R-SL", "R-EO", "R-MX", "R-CD", "R-DC", "R-RG", "R-FP", "R-VM", "R-KW", "R-ON", "R-LK", "R-HO", "R-VP", "R-LM", "R-EH", "R-CC"],
               "Decides only the selection/order skeleton: switch indexes the table by the dispatch value, default exactly on dispatch "
               "failure or miss, SwitchError without default; case-when returns the result paired with the first condition that holds; "
               "coalesce returns at the first member that validates and evaluates; collections and the Map product iterate in stored "
@@ -100,18 +100,18 @@ PROPS = {
               "to the evaluated parts; the combinator API (call, >>, apply, bind) is not overridden by a concrete class; a dataset nests "
               "default options > pre-set options > cache > calculation, so what the cache keys on is what the body is evaluated under."
               " Only a list of aliases is split into aliases; every reported key value reaches the fingerprint as it is; functions that collect **kwargs keep no keyword of their own; lift() sets apart only *args/**kwargs."
-              " The library's own steps used with >> (F.eq, F.gt … as case-when conditions) compute the documented Python operation; the Logged wrapper returns exactly the wrapped value whichever order it logs in." " Every element of a Map / argument list is evaluated on its own (no result handed out again for an element that merely looks the same); what an expression or effect raises in validate/keys/explain is an EvaluationError, so coalesce and switch step over a part that cannot be used." " Dataset.evaluate/validate do nothing but delegate to the composed expression (a check of the dispatch against the caller's raw options ignores the dataset's own pre-set and default options).",
+              " The library's own steps used with >> (F.eq, F.gt … as case-when conditions) compute the documented Python operation; the Logged wrapper returns exactly the wrapped value whichever order it logs in." " Every element of a Map / argument list is evaluated on its own (no result handed out again for an element that merely looks the same); what an expression or effect raises in validate/keys/explain is an EvaluationError, so coalesce and switch step over a part that cannot be used." " Dataset.evaluate/validate do nothing but delegate to the composed expression (a check of the dispatch against the caller's raw options ignores the dataset's own pre-set and default options)." " (Round 9) A combinator rebuilt from itself (CaseWhen.when/otherwise) carries every field over — a default dropped by when() turns 'no case matched' from the default into an error (R-CC).",
               "value equality with a reference interpreter for arbitrary expression trees (most of the property)",
-              filters={"R-EH": [":raises "], "R-VP": ["Logged"], "R-FP": ["every-reported-key-serialised"], "R-RG": ["element-wise"], "R-MX": ["Map._iter", "WithOptions.evaluate"], "R-CD": ["Switch", "Coalesce", "CaseWhen", "user callable"], "R-DC": ["default-options > pre-set options", "delegates to _composed"]}),
-    "C06": _p(["R-CL", "R-SL", "R-AB", "R-EO", "R-EV", "R-SO", "R-PU", "R-AI", "R-RQ"],
+              filters={"R-CC": ["CaseWhen(", "Switch(", "Coalesce(", "Iter(", "Map(", "Pipeline("], "R-EH": [":raises "], "R-VP": ["Logged"], "R-FP": ["every-reported-key-serialised"], "R-RG": ["element-wise"], "R-MX": ["Map._iter", "WithOptions.evaluate"], "R-CD": ["Switch", "Coalesce", "CaseWhen", "user callable"], "R-DC": ["default-options > pre-set options", "delegates to _composed"]}),
+    "C06": _p(["R-CL", "R-SL", "R-AB", "R-EO", "R-EV", "R-SO", "R-PU", "R-AI", "R-RQ", "R-OP"],
               "Decides: no evaluation op is reachable from construction/decoration/registration code (whole-program reachability "
               "over resolved callees); unselected switch/case/coalesce branches never receive an op; the default is touched only when "
               "the key is absent; the source of >> is evaluated before the function (and no class overrides apply/>> to collapse chains); "
               "inspection methods evaluate selectors only."
-              " Construction code calls no user-supplied object with empty arguments (a dataset class is a type and an expression); Map's per-combination dictionaries share no nested section; the library starts no threads." " Cached.validate asks the cache first and validates the wrapped expression only on a miss (re-validating a memoised member makes coalesce pass it over and run the next member's body).",
+              " Construction code calls no user-supplied object with empty arguments (a dataset class is a type and an expression); Map's per-combination dictionaries share no nested section; the library starts no threads." " Cached.validate asks the cache first and validates the wrapped expression only on a miss (re-validating a memoised member makes coalesce pass it over and run the next member's body)." " (Round 9) The keys of an evaluatable dictionary are carried literally: a key that is itself an expression is not a child to evaluate (R-OP, evaluatable_dict).",
               "which bodies actually ran for a given dictionary",
-              filters={"R-RQ": ["Cached.validate"], "R-AI": ["starts no threads"], "R-PU": ["Map", "shallow"], "R-SO": ["Coalesce", "CaseWhen"]}),
-    "C07": _p(["R-RG", "R-LB", "R-KC", "R-DC", "R-CC", "R-ID", "R-CW", "R-SO", "R-CD", "R-LS", "R-UW", "R-FP", "R-DK", "R-CF", "R-TB", "R-VW", "R-EO", "R-HD"],
+              filters={"R-OP": ["evaluatable_dict"], "R-RQ": ["Cached.validate"], "R-AI": ["starts no threads"], "R-PU": ["Map", "shallow"], "R-SO": ["Coalesce", "CaseWhen"]}),
+    "C07": _p(["R-RG", "R-LB", "R-KC", "R-DC", "R-CC", "R-ID", "R-CW", "R-SO", "R-CD", "R-LS", "R-UW", "R-FP", "R-DK", "R-CF", "R-TB", "R-VW", "R-EO", "R-HD", "R-MX", "R-OP"],
               "Decides: an implementation registers nothing before all rejections are decided; the overload switch is rebuilt from "
               "the live table on every use; the dispatch is keyed on every successful-dispatch path; the callback is applied outside "
               "the switch; derivatives share overloads and cache by reference; every interface member receives the interface's "
@@ -119,9 +119,9 @@ PROPS = {
               "(default-supplied) dispatch value is keyed apart from another's."
               " Wrapping never copies the wrapped object's __dict__ (a dataset wrapping a dataset would take over its overload table); tuple aliases are registered whole."
               " The fingerprint looks every reported key up with the dotted accessor (a nested dispatch option 'IMPL.KIND' read with options.get would fingerprint as None for every value: one stored value for all implementations); request records keep each constructor argument in the field of its name (a handler of the type request reads request.options when the dispatch Option is typed)."
-              " Expressions are always truthy (a dispatch that is an empty switch must survive `dispatch or self.dispatch`); a member that is itself an expression is never frozen into a Value." " The callback pipeline applies all of its steps (rest innermost, tail last) to whichever implementation was selected. The default type check accepts every value: a dispatch option declared float and given 2 still selects the implementation registered under 2.",
+              " Expressions are always truthy (a dispatch that is an empty switch must survive `dispatch or self.dispatch`); a member that is itself an expression is never frozen into a Value." " The callback pipeline applies all of its steps (rest innermost, tail last) to whichever implementation was selected. The default type check accepts every value: a dispatch option declared float and given 2 still selects the implementation registered under 2." " (Round 9) Map sets each combination over the caller's options with a forcing WithOptions: mapped over a dispatch key, every element must select the implementation of its own value (R-MX). A dispatch built with evaluatable_tuple is the tuple of all components in order, repeated values included (R-OP).",
               "which implementation a given dictionary selects; cross-member consistency of values",
-              filters={"R-HD": ["type-validation"], "R-EO": ["Pipeline.evaluate"], "R-FP": ["every-reported-key-serialised", "options-only-via-keys-and-lookup"], "R-DK": ["fingerprint"], "R-CF": ["Request"], "R-KC": ["Switch", "Overloaded", "_DependsOn", "Dataset"], "R-CC": ["Dataset(", "Overloaded("], "R-SO": ["Switch"],
+              filters={"R-OP": ["evaluatable_tuple"], "R-MX": ["forcing WithOptions"], "R-HD": ["type-validation"], "R-EO": ["Pipeline.evaluate"], "R-FP": ["every-reported-key-serialised", "options-only-via-keys-and-lookup"], "R-DK": ["fingerprint"], "R-CF": ["Request"], "R-KC": ["Switch", "Overloaded", "_DependsOn", "Dataset"], "R-CC": ["Dataset(", "Overloaded("], "R-SO": ["Switch"],
                        "R-DC": ["callback", "delegates", "default-options > pre-set options"], "R-CD": ["Switch"], "R-LS": ["Overloaded", "_LOCKS"]}),
     "C08": _p(["R-MX", "R-OA", "R-DC", "R-CC", "R-PU", "R-PO", "R-IS", "R-UW", "R-VM", "R-OF", "R-FP", "R-MF"],
               "Decides: WithOptions mixes the pre-set dictionary as the winning ingredient exactly when forced; all four ops see the "
@@ -131,35 +131,35 @@ PROPS = {
               " A WithOptions rebuilt from another carries its force flag; wrapping copies no __dict__; values and options are not changed in place, also not through shallow copies." " A dataset and its with_options / with_default_options variants share one cache, told apart by the fingerprint: a list-valued option keeps its order there (lists that differ in order are different overlays)." " What a dataset-class instance records for repr/equality is read from the options, never written back into a section it shares with the caller's or the pre-set dictionary.",
               "merge semantics of confectioner.mix itself; F13",
               filters={"R-MF": ["_DatasetClassMixin"], "R-FP": ["a sequence value keeps its order"], "R-CC": ["Dataset(", "WithOptions("], "R-OA": ["WithOptions", "Dataset", "Map"], "R-PO": ["WithOptions"]}),
-    "C09": _p(["R-TK", "R-KC", "R-RK", "R-CH", "R-GS", "R-KW", "R-MX", "R-ID", "R-L1"],
+    "C09": _p(["R-TK", "R-KC", "R-RK", "R-CH", "R-GS", "R-KW", "R-MX", "R-ID", "R-L1", "R-RG"],
               "Decides: Template.keys/explain/validate iterate the same key source as evaluate resolves, skip exactly the :param: "
               "keys, delegate every other key to Option(key).<same op> (transitivity), and visit all params; Option.keys/explain "
               "inspect every container kind whose embedded references resolve() follows; KeyError translations are chained."
               " Collecting functions keep no keyword of their own (a lifted parameter called `name` is still lifted); no thread-local walk state survives a failed keys()."
-              " A dataset derived with with_options / with_default_options and used as a {:name:} parameter is evaluated under the options given, with the stored pre-set dictionary (not the default one) mixed in; an interface member declared as `name: T = <dataset>` keeps that default implementation (no abstract member is declared over it)." " WithOptions asks the wrapped object to explain / key itself under the mixed options (the values the wrapper supplies may be templated and refer to further keys)." " The log request of a dataset used as a template parameter carries its message as it is (a message run through option-placeholder formatting fails for an absent key that evaluation never reads).",
+              " A dataset derived with with_options / with_default_options and used as a {:name:} parameter is evaluated under the options given, with the stored pre-set dictionary (not the default one) mixed in; an interface member declared as `name: T = <dataset>` keeps that default implementation (no abstract member is declared over it)." " WithOptions asks the wrapped object to explain / key itself under the mixed options (the values the wrapper supplies may be templated and refer to further keys)." " The log request of a dataset used as a template parameter carries its message as it is (a message run through option-placeholder formatting fails for an absent key that evaluation never reads)." " (Round 9) A template parameter that is an interface member evaluates to the registered implementation only if the member of every interface was collected for registration (R-RG, _get_members).",
               "the substituted text",
-              filters={"R-L1": ["request carries"], "R-MX": ["with_options", "with_default_options", "WithOptions.explain", "WithOptions.keys"], "R-ID": ["abstract member only"], "R-KC": ["Template", "Option"], "R-CH": ["Template", "Option"], "R-GS": ["labrea.template", "labrea.option"]}),
-    "C10": _p(["R-VA", "R-KC", "R-OA", "R-CP", "R-EV", "R-SL", "R-OP", "R-SH", "R-WI", "R-MF", "R-VO", "R-RK", "R-TK", "R-L1", "R-OF", "R-LB", "R-SO"],
+              filters={"R-RG": ["_get_members"], "R-L1": ["request carries"], "R-MX": ["with_options", "with_default_options", "WithOptions.explain", "WithOptions.keys"], "R-ID": ["abstract member only"], "R-KC": ["Template", "Option"], "R-CH": ["Template", "Option"], "R-GS": ["labrea.template", "labrea.option"]}),
+    "C10": _p(["R-VA", "R-KC", "R-OA", "R-CP", "R-EV", "R-SL", "R-OP", "R-SH", "R-WI", "R-MF", "R-VO", "R-RK", "R-TK", "R-L1", "R-OF", "R-LB", "R-SO", "R-VP", "R-KW"],
               "Decides: for every node class, every evaluate path's children are covered by one validate path; the same children are "
               "keyed; the same options form is passed; Cached.validate skips only on exists; inspection evaluates selectors only; "
               "unselected branches are not validated; a child evaluated per element is validated per element; dataset-class "
               "validate/keys/instantiation enumerate the same members; conversely validate consults a child only in situations in which some "
               "evaluate path does (a flag honoured by evaluate but not by validate is reported); Option.keys follows templated values into "
               "every container kind that evaluation resolves."
-              " Template inspection skips exactly the :param: keys; inspection methods do not log; options are handed on unchanged." " The switch an overloaded dataset delegates to is built from the live dispatch, table and default — an abstract dataset has no stand-in default that validates and keys trivially. Coalesce validates a member before every operation on it, evaluate included (Iter and Map evaluate lazily: unvalidated, the lazy result of a member that keys() and validate() reject is returned).",
+              " Template inspection skips exactly the :param: keys; inspection methods do not log; options are handed on unchanged." " The switch an overloaded dataset delegates to is built from the live dispatch, table and default — an abstract dataset has no stand-in default that validates and keys trivially. Coalesce validates a member before every operation on it, evaluate included (Iter and Map evaluate lazily: unvalidated, the lazy result of a member that keys() and validate() reject is returned)." " (Round 9) With caching disabled the stand-in for the presence request answers False: a True makes Cached.validate skip the wrapped expression while evaluate recomputes it (R-VP). A plain function becomes part of the graph through lift — built directly without arguments, validate/keys see no argument while evaluate calls the body with raw Option objects (R-KW).",
               "agreement for a particular dictionary when it hinges on values",
-              filters={"R-SO": ["Coalesce"], "R-LB": ["switch reads live"], "R-L1": ["inspection does not log"], "R-TK": ["validate", "keys"], "R-CP": ["validate"], "R-OP": [":iterates"], "R-SH": ["labrea.cache."], "R-WI": [":validate:", ":keys:"], "R-MF": ["same member source", "one member enumeration"]}),
-    "C11": _p(["R-XA", "R-EG", "R-OA", "R-EV", "R-TK", "R-OP", "R-WI", "R-SO", "R-SL", "R-AB", "R-RK", "R-VO", "R-PO", "R-L1", "R-SH", "R-KU"],
+              filters={"R-KW": ["built directly", "a variadic parameter"], "R-VP": ["_disabled_exists_cache_handler"], "R-SO": ["Coalesce"], "R-LB": ["switch reads live"], "R-L1": ["inspection does not log"], "R-TK": ["validate", "keys"], "R-CP": ["validate"], "R-OP": [":iterates"], "R-SH": ["labrea.cache."], "R-WI": [":validate:", ":keys:"], "R-MF": ["same member source", "one member enumeration"]}),
+    "C11": _p(["R-XA", "R-EG", "R-OA", "R-EV", "R-TK", "R-OP", "R-WI", "R-SO", "R-SL", "R-AB", "R-RK", "R-VO", "R-PO", "R-L1", "R-SH", "R-KU", "R-VP"],
               "Decides: every child keyed or validated is explained, path by path for equal selections; every evaluate/validate "
               "reached from an explain method lies inside a try that catches EvaluationError and raises "
               "InsufficientInformationError from it or falls back statically; explain follows the same selection as validate/keys "
               "(coalesce, switch), decides presence like keys (not by the value), and covers per-element children; explain consults a child only "
               "where evaluate may; the keys WithOptions hides from explain are exactly those its pre-set dictionary supplies (dotted lookup)."
               " Inspection methods issue no log request (whose handler would read an option explain never lists)."
-              " Computation.explain lists the effect's keys exactly when Computation.validate checks them (effects not disabled); part key sets are combined by union only." " The default handler of an option's type check evaluates nothing it was handed (a configurable type would make validate() depend on keys explain() never lists).",
+              " Computation.explain lists the effect's keys exactly when Computation.validate checks them (effects not disabled); part key sets are combined by union only." " The default handler of an option's type check evaluates nothing it was handed (a configurable type would make validate() depend on keys explain() never lists)." " (Round 9) With caching disabled the presence stand-in answers False; otherwise validate passes while explain lists keys still to be supplied (R-VP).",
               "the iterative fill-until-valid behaviour on concrete dictionaries",
-              filters={"R-SH": ["Computation.explain", "Computation.validate", "type_validation"], "R-L1": ["inspection does not log"], "R-TK": ["explain"], "R-OP": [":iterates"], "R-WI": [":explain:"], "R-SO": ["Coalesce"], "R-SL": [":explain:"], "R-AB": ["explain"], "R-RK": ["explain", "every recognised kind"], "R-VO": [":explain:"], "R-PO": ["WithOptions"]}),
-    "C12": _p(["R-EH", "R-CH", "R-CD", "R-KN", "R-CP", "R-MC", "R-WR", "R-DC", "R-GS", "R-HI", "R-EX", "R-AB", "R-OH", "R-JS", "R-MS"],
+              filters={"R-VP": ["_disabled_exists_cache_handler"], "R-SH": ["Computation.explain", "Computation.validate", "type_validation"], "R-L1": ["inspection does not log"], "R-TK": ["explain"], "R-OP": [":iterates"], "R-WI": [":explain:"], "R-SO": ["Coalesce"], "R-SL": [":explain:"], "R-AB": ["explain"], "R-RK": ["explain", "every recognised kind"], "R-VO": [":explain:"], "R-PO": ["WithOptions"]}),
+    "C12": _p(["R-EH", "R-CH", "R-CD", "R-KN", "R-CP", "R-MC", "R-WR", "R-DC", "R-GS", "R-HI", "R-EX", "R-AB", "R-OH", "R-JS", "R-MS", "R-DF"],
               "Decides: the default evaluate handler wraps every exception into EvaluationError(source = this object) chained with "
               "`from`, re-raising its own; all raises inside handlers are chained; only documented fall-through points catch "
               "EvaluationError and nothing else catches Exception; the only path into the memo dictionary is CacheSetRequest built in "
@@ -168,9 +168,9 @@ PROPS = {
               "mutated default argument carries anything from one evaluation to the next; no __repr__ (error messages embed them) orders "
               "user-supplied aliases."
               " No StopIteration of user code is taken for exhaustion (next(filter(…), default)); no error message is built by ordering looked-up option values or reading __name__ of arbitrary callables."
-              " What an error message joins has been turned into text first (lookup keys and aliases are arbitrary hashables: an unconverted join fails inside the error's constructor); the reported key is element 0 of (*e.args, fallback)." " A missing option is reported with its key: no None standing for 'not given' reaches an Option's default (which would make the key optional).",
+              " What an error message joins has been turned into text first (lookup keys and aliases are arbitrary hashables: an unconverted join fails inside the error's constructor); the reported key is element 0 of (*e.args, fallback)." " A missing option is reported with its key: no None standing for 'not given' reaches an Option's default (which would make the key optional)." " (Round 9) Runtime.run calls the handler outside the try that covers its look-up: a KeyError raised by a handler is a failure to surface, not a missing registration (R-DF).",
               "the concrete cause chain for a given graph; outcomes of later evaluations",
-              filters={"R-MS": ["None when not given", "None-marked"], "R-CP": ["store-after-compute"], "R-MC": ["writes", "constructs", "calls Cache.set"], "R-WR": ["__init_subclass__", "_evaluate_request", "directly"],
+              filters={"R-DF": ["the handler is called outside the try"], "R-MS": ["None when not given", "None-marked"], "R-CP": ["store-after-compute"], "R-MC": ["writes", "constructs", "calls Cache.set"], "R-WR": ["__init_subclass__", "_evaluate_request", "directly"],
                        "R-DC": ["cache layer", "cached"], "R-HI": ["disabled"], "R-AB": ["Option.evaluate"]}),
     "C13": _p(["R-HO", "R-HF", "R-PI", "R-KC", "R-XA", "R-EO", "R-IS", "R-SO", "R-HD", "R-VM", "R-KW", "R-LK", "R-RE", "R-VP", "R-OA", "R-OF", "R-SH"],
               "Decides: the operand order of each helper step by symbolic beta-reduction of partial(f, …) against the documented "
@@ -191,16 +191,16 @@ PROPS = {
               "independent of the exception and returns nothing truthy, every table index is the current thread."
               " The current runtime is read only by Request.run and handle(); no library function enters a runtime of its own; a Runtime subclass keeps no per-entry state in one attribute." " Building an expression (a decorated step, a dataset, an overload) issues no request: a request at definition time creates a runtime for the defining thread whose default-handler snapshot then serves instead of defaults registered later.",
               "the stack discipline over arbitrary enter/exit histories (needs a model)"),
-    "C15": _p(["R-LS", "R-CW", "R-TI", "R-RE", "R-MC", "R-LB", "R-GS", "R-SO", "R-FP", "R-KU", "R-HI"],
+    "C15": _p(["R-LS", "R-CW", "R-TI", "R-RE", "R-MC", "R-LB", "R-GS", "R-SO", "R-FP", "R-KU", "R-HI", "R-KC"],
               "Decides the lock and ownership discipline only: every access to the thread->runtime table under the module lock and "
               "keyed by the current thread; the overload table written under the object's lock and replaced copy-on-write; restore "
               "state of shared runtime objects is per thread; cache entries addressed by fingerprint in all three operations; no switch "
               "built from the overload table is kept on the object (an unlocked check-build-store would race with register)."
               " No object's overload table is re-bound from outside; no module-level or thread-local state beyond the three guarded tables."
-              " `the value belonging to their own options`: the entries of one cache are told apart by the fingerprint alone — it covers every key the selection reads (coalesce keys the member it evaluates, validated first), serialised by dotted lookup, part key sets combined by union." " No library function makes a runtime and enters it later (a runtime derived while a step is evaluated carries that thread's handler table; entered lazily by whichever thread consumes the result, it replaces that thread's handlers).",
+              " `the value belonging to their own options`: the entries of one cache are told apart by the fingerprint alone — it covers every key the selection reads (coalesce keys the member it evaluates, validated first), serialised by dotted lookup, part key sets combined by union." " No library function makes a runtime and enters it later (a runtime derived while a step is evaluated carries that thread's handler table; entered lazily by whichever thread consumes the result, it replaces that thread's handlers)." " (Round 9) Concurrent evaluations of a cached dataset are kept apart by the fingerprint, which is built from keys(): a pipeline that omits the keys of its earlier steps makes two threads with different options share one entry (R-KC on Pipeline).",
               "behaviour under interleavings — no schedule is explored (most of the property)",
-              filters={"R-HI": ["enters a runtime of its own", "reads the current runtime"], "R-SO": ["Coalesce"], "R-MC": ["key-is-fingerprint"]}),
-    "C16": _p(["R-VP", "R-SH", "R-DH", "R-L1", "R-DC", "R-RQ", "R-HI", "R-SK", "R-CP", "R-GS", "R-AI", "R-VO", "R-MX", "R-UW", "R-HK", "R-KU", "R-LM", "R-MC"],
+              filters={"R-KC": ["Pipeline"], "R-HI": ["enters a runtime of its own", "reads the current runtime"], "R-SO": ["Coalesce"], "R-MC": ["key-is-fingerprint"]}),
+    "C16": _p(["R-VP", "R-SH", "R-DH", "R-L1", "R-DC", "R-RQ", "R-HI", "R-SK", "R-CP", "R-GS", "R-AI", "R-VO", "R-MX", "R-UW", "R-HK", "R-KU", "R-LM", "R-MC", "R-SO", "R-VA"],
               "Decides: no data flow from a switch, an effect result or a log result into any returned value; the three cache "
               "handlers test both switch spellings first and delegate to disabled twins that touch no backend; the effects switch "
               "selects between two terms containing the same calculation; exactly one log request per Logged.evaluate path, Logged "
@@ -208,10 +208,10 @@ PROPS = {
               "the cache/logging/computation modules; no module reads the process environment, a clock or a random source (switches come "
               "from options and handlers only); a per-object switch is honoured by all sibling operations alike."
               " Map delivers every mapped dotted key (switch options included) to the mapped expression; the library reads no option by literal name except the documented switches."
-              " Part key sets are combined by union only (a key two steps share must not vanish from the fingerprint: cached and uncached values would differ)." " No expression keeps a table of its parts' results for the duration of one evaluation: with caching disabled every repeated evaluation recomputes, runs its effects and issues its log request." " The memo is addressed by the fingerprint alone: toggling effects on a dataset (which changes the repr of its composed expression) neither hides a stored entry nor forces a recomputation.",
+              " Part key sets are combined by union only (a key two steps share must not vanish from the fingerprint: cached and uncached values would differ)." " No expression keeps a table of its parts' results for the duration of one evaluation: with caching disabled every repeated evaluation recomputes, runs its effects and issues its log request." " The memo is addressed by the fingerprint alone: toggling effects on a dataset (which changes the repr of its composed expression) neither hides a stored entry nor forces a recomputation." " (Round 9) A value that differs between caching on and caching disabled is a switch changing a value: Coalesce must report the keys of the member it evaluates (R-SO), and validation of keyword arguments must validate, not only key, them (R-VA on labrea.arguments).",
               "observed counts of recomputation and emitted records",
-              filters={"R-MC": ["key-is-fingerprint"], "R-MX": ["Map"], "R-DC": ["effects", "calculation", "Logged"], "R-HI": ["handle", "disabled"], "R-CP": ["returns-retrieved-stored-or-computed"], "R-GS": ["labrea.cache", "labrea.logging", "labrea.computation"], "R-VO": ["Computation", "Dataset", "Logged", "Cached"]}),
-    "C17": _p(["R-CE", "R-CP", "R-MC", "R-SO", "R-OH", "R-OC", "R-FP", "R-DK", "R-RK", "R-LM"],
+              filters={"R-VA": ["labrea.arguments"], "R-SO": ["Coalesce"], "R-MC": ["key-is-fingerprint"], "R-MX": ["Map"], "R-DC": ["effects", "calculation", "Logged"], "R-HI": ["handle", "disabled"], "R-CP": ["returns-retrieved-stored-or-computed"], "R-GS": ["labrea.cache", "labrea.logging", "labrea.computation"], "R-VO": ["Computation", "Dataset", "Logged", "Cached"]}),
+    "C17": _p(["R-CE", "R-CP", "R-MC", "R-SO", "R-OH", "R-OC", "R-FP", "R-DK", "R-RK", "R-LM", "R-HO"],
               "Decides: CacheGetFailure cannot escape Cached.evaluate/validate, Cache.exists or the set/exists handlers through any "
               "resolved call chain; every return of Cached.evaluate is the retrieved, the stored-and-read-back or the freshly "
               "computed value; a failed get falls through to the computation; the set handler falls back to request.value; MemoryCache "
@@ -219,10 +219,10 @@ PROPS = {
               "failure passes it on without doing anything that could fail differently; the reprs embedded in CacheGetFailure's message "
               "never order user-supplied aliases."
               " Every dataset has its own cache unless handed one; reprs (embedded in CacheGetFailure) are total: no ordering of aliases, no unguarded __name__."
-              " A backend that follows the contract is addressed by the fingerprint: every reported key is serialised by dotted lookup, and Option.keys follows templated values into the values (not the keys) of a mapping — otherwise a well-behaved backend hands back a value stored for other options." " The parts of an expression are told apart by identity alone (two Options that print alike, Value(1) == Value(True)): a part collapsed into a look-alike loses its keys, its validation, its requests and its value.",
+              " A backend that follows the contract is addressed by the fingerprint: every reported key is serialised by dotted lookup, and Option.keys follows templated values into the values (not the keys) of a mapping — otherwise a well-behaved backend hands back a value stored for other options." " The parts of an expression are told apart by identity alone (two Options that print alike, Value(1) == Value(True)): a part collapsed into a look-alike loses its keys, its validation, its requests and its value." " (Round 9) A step that compares by identity instead of equality makes a value depend on whether an operand came out of the cache (the stored object) or was recomputed (R-HO on eq/ne).",
               "backends that violate the Cache contract in other ways (other exception types)",
-              filters={"R-LM": ["tells the parts"], "R-DK": ["fingerprint"], "R-RK": ["every recognised kind"], "R-MC": ["MemoryCache.get:a miss"], "R-SO": ["Coalesce"]}),
-    "C18": _p(["R-WR", "R-RQ", "R-HD", "R-MP", "R-L1", "R-HI", "R-MF", "R-EO", "R-ON", "R-EV", "R-CF", "R-RG", "R-GS", "R-LM", "R-DF"],
+              filters={"R-HO": ["labrea.functions.eq:", "labrea.functions.ne:"], "R-LM": ["tells the parts"], "R-DK": ["fingerprint"], "R-RK": ["every recognised kind"], "R-MC": ["MemoryCache.get:a miss"], "R-SO": ["Coalesce"]}),
+    "C18": _p(["R-WR", "R-RQ", "R-HD", "R-MP", "R-L1", "R-HI", "R-MF", "R-EO", "R-ON", "R-EV", "R-CF", "R-RG", "R-GS", "R-LM", "R-DF", "R-HF"],
               "Decides nearly the whole mechanism: the four ABC hooks replace every op by a request-issuing wrapper and the default "
               "handlers call the saved implementation; nothing else calls the saved implementations; every concrete class defines "
               "plain methods; cache/log/type-check sites go through XRequest(...).run(); backends are called only by handlers; every "
@@ -232,19 +232,19 @@ PROPS = {
               "was built from, not on copies derived on the way."
               " No library function enters a runtime of its own (shadowing the user's handlers); expressions are never deep-copied."
               " validate/keys/explain ask their parts to validate/key/explain (an effect whose validate evaluates its callback issues EvaluateRequests where ValidateRequests are due); request records keep each constructor argument in the field of its name."
-              " What an implementation registers on the interface member is its own member object (the dataset the user wrote, so that its requests are issued when the interface dispatches to it)." " Which handler serves a request depends on the handler tables alone: the runtime module keeps no further module-level or per-thread state that could route a request past an installed handler." " The parts of an expression are told apart by identity alone (two Options that print alike, Value(1) == Value(True)): a part collapsed into a look-alike loses its keys, its validation, its requests and its value." " Runtime.run serves every request from the runtime's own handler for its type — nested requests of the same type included.",
+              " What an implementation registers on the interface member is its own member object (the dataset the user wrote, so that its requests are issued when the interface dispatches to it)." " Which handler serves a request depends on the handler tables alone: the runtime module keeps no further module-level or per-thread state that could route a request past an installed handler." " The parts of an expression are told apart by identity alone (two Options that print alike, Value(1) == Value(True)): a part collapsed into a look-alike loses its keys, its validation, its requests and its value." " Runtime.run serves every request from the runtime's own handler for its type — nested requests of the same type included." " (Round 9) An expression given as a step parameter is part of the graph only if the helper asks whether it is an Evaluatable (ensure); wrapped as a constant none of its four operations is ever issued (R-HF).",
               "third-party subclasses; that a pass-through handler changes no value",
-              filters={"R-DF": ["looks the handler up by type(request)"], "R-LM": ["tells the parts"], "R-GS": ["labrea.runtime"], "R-RG": ["registers the implementation member itself"], "R-MP": ["type request"], "R-HI": ["handle", "disabled", "enters a runtime", "reads the current runtime"], "R-MF": ["set to its evaluation"], "R-EO": ["__call__", "combinator API", "before the function is returned"]}),
-    "C19": _p(["R-DK", "R-MF", "R-KC", "R-VA", "R-XA", "R-WI", "R-EO", "R-KB", "R-LK", "R-TI", "R-MX", "R-RG", "R-VW", "R-OC", "R-CC", "R-MC"],
+              filters={"R-HF": ["is evaluated when it is an expression"], "R-DF": ["looks the handler up by type(request)", "the handler is called outside the try"], "R-LM": ["tells the parts"], "R-GS": ["labrea.runtime"], "R-RG": ["registers the implementation member itself"], "R-MP": ["type request"], "R-HI": ["handle", "disabled", "enters a runtime", "reads the current runtime"], "R-MF": ["set to its evaluation"], "R-EO": ["__call__", "combinator API", "before the function is returned"]}),
+    "C19": _p(["R-DK", "R-MF", "R-KC", "R-VA", "R-XA", "R-WI", "R-EO", "R-KB", "R-LK", "R-TI", "R-MX", "R-RG", "R-VW", "R-OC", "R-CC", "R-MC", "R-RK", "R-PO"],
               "Decides: relevant options are read with dotted accessors; validate/keys/explain/instantiation enumerate members with "
               "the same source and predicate; __eq__ and __repr__ read the recorded relevant options; members are children for key "
               "coverage / validate / explain agreement; no per-class member memo that derived classes inherit; plain members are "
               "handed out as copies."
               " Recorded keys are compared at the dot; lift() lifts keyword-only defaults; inherit() always installs the parent's runtime."
               " A member derived with with_options / with_default_options carries the stored forced dictionary on (members are evaluations under the instance's options); every member of an implemented interface is registered under every alias (the aliases are a collection that can be walked once per member)."
-              " A member that is itself an expression (a dataset class is a type and an expression) is never wrapped as a constant." " Configuring a dataset factory creates no cache: members of a dataset class made by one pre-configured factory each get a cache of their own (a shared one hands a member its sibling's value)." " An interface member rebuilt from an existing dataset keeps its callback (the callback's option keys are part of the dataset class's keys, repr and equality). Members of a dataset class are memoised under their JSON fingerprint: 1, 1.0 and True under one key are three entries, not one.",
+              " A member that is itself an expression (a dataset class is a type and an expression) is never wrapped as a constant." " Configuring a dataset factory creates no cache: members of a dataset class made by one pre-configured factory each get a cache of their own (a shared one hands a member its sibling's value)." " An interface member rebuilt from an existing dataset keeps its callback (the callback's option keys are part of the dataset class's keys, repr and equality). Members of a dataset class are memoised under their JSON fingerprint: 1, 1.0 and True under one key are three entries, not one." " (Round 9) A dataset class reports the union of its members' keys: a member Option that does not look into a section for templated references (R-RK) or a WithOptions member whose pre-set filter is wrong (R-PO) makes instances compare equal or unequal on the wrong keys.",
               "instance attribute values",
-              filters={"R-MC": ["key-is-fingerprint"], "R-CC": ["Dataset(...) rebuilt"], "R-OC": ["creates no cache"], "R-MX": ["with_options", "with_default_options"], "R-RG": ["walked once per member", "every member registered"], "R-KC": ["_DatasetClassMeta"], "R-VA": ["_DatasetClassMeta"], "R-XA": ["_DatasetClassMeta"], "R-DK": ["datasetclass"],
+              filters={"R-PO": ["pre-set keys filtered"], "R-RK": ["_template_keys"], "R-MC": ["key-is-fingerprint"], "R-CC": ["Dataset(...) rebuilt"], "R-OC": ["creates no cache"], "R-MX": ["with_options", "with_default_options"], "R-RG": ["walked once per member", "every member registered"], "R-KC": ["_DatasetClassMeta"], "R-VA": ["_DatasetClassMeta"], "R-XA": ["_DatasetClassMeta"], "R-DK": ["datasetclass"],
                        "R-WI": ["_DatasetClassMeta"], "R-EO": ["Value.evaluate"]}),
     "C20": _p(["R-PL", "R-PF", "R-GA", "R-PK", "R-IS", "R-TV", "R-FP"],
               "Decides necessary conditions of picklability: every class holding a lock drops it in __getstate__ and re-creates it in "
